@@ -8,7 +8,7 @@ from typing import List, Set
 from .. import hexa, tables
 from ..cfg import CFG
 from ..model import AnalysisError, FuncInfo, Repo, attr_chain, parent, walk_shallow
-from ..peval import Evaluator, NotEvaluable, Obj, Raised, Sym
+from ..peval import NO_MATCH, Evaluator, NotEvaluable, Obj, Raised, Sym
 from ..report import RuleRun
 from ..util import (
     Reach,
@@ -254,13 +254,34 @@ def consistency_reach(repo: Repo) -> RuleRun:
                 raiser.node,
                 key=f"eval:{label}",
             )
+    # (iii-b) Block.grade re-grades every axis, whether it looks defined already or not (a chop added after a first grade must count)
+    bg = repo.func("items.block.Block.grade")
+    for defined in ((False, False, False), (True, False, True), (True, True, True)):
+        graded = []
+
+        def ghook(ev, call: ast.Call, name, graded=graded):
+            if isinstance(call.func, ast.Attribute) and call.func.attr == "grade":
+                recv = ev.eval(call.func.value)
+                if isinstance(recv, Obj) and recv.has("index"):
+                    graded.append(recv.get("index"))
+                    return None
+            return NO_MATCH
+
+        blk = Obj("block", cls=repo.cls("items.block.Block"))
+        blk.set("axes", [Obj(f"axis{i}", index=i, is_defined=d) for i, d in enumerate(defined)])
+        try:
+            Evaluator(repo=repo, module=bg.module, call_hook=ghook).call_funcinfo(bg, [blk])
+        except (NotEvaluable, Raised) as err:
+            raise AnalysisError(f"Block.grade not evaluable: {err}") from err
+        r.check(graded == [0, 1, 2], bg, f"axes defined={defined}: all three graded", f"Block.grade with axes already defined = {defined} grades axes {graded}: every axis must be graded from its current chops on every grade() (a chop added after the first grade is otherwise ignored and a stale count written)", bg.node, key=f"block-grade:{defined}")
     # (iv) the whole chain BlockList.check_consistency -> ... on a symbolic two-block model: a conflict anywhere,
     #      whatever the rest of the state looks like (uniform gradings, own chops, manager kind), must be refused
     mgr_classes = [c for c in (repo.cls("items.wires.manager.WireChopManager"), repo.cls("items.wires.manager.WirePropagateManager"))]
     block_cls, axis_cls, bl_cls = repo.cls("items.block.Block"), repo.cls("items.wires.axis.Axis"), repo.cls("lists.block_list.BlockList")
 
     def model(conflict, shared: bool, mgr_cls, own_chops: bool):
-        """conflict = None | ("intra", b, a, w) | ("inter", b, a, w) | ("agree", b, a, w): the wire has an anti-aligned
+        """conflict = None | ("intra", b, a, w) | ("inter", b, a, w) | ("inter-set", b, a, w): a coincident wire with 7 = 2+3+2 cells
+        against 5 = 2+3 (the same SET of division counts, different totals) | ("agree", b, a, w): the wire has an anti-aligned
         coincident wire of a multigraded neighbour - same total count, division counts in the opposite order"""
         blocks = []
         for b in range(2):
@@ -293,8 +314,8 @@ def consistency_reach(repo: Repo) -> RuleRun:
                         wires[w].set("grading", g)
                     else:
                         cw, cg = Obj("cw"), Obj("cg")
-                        cg.set("count", 5 if kind == "agree" else 8)
-                        cg.set("counts", [3, 2] if kind == "agree" else [2, 6])
+                        cg.set("count", {"agree": 5, "inter-set": 7}.get(kind, 8))
+                        cg.set("counts", {"agree": [3, 2], "inter-set": [2, 3, 2]}.get(kind, [2, 6]))
                         cg.set("is_defined", True)
                         cw.set("grading", cg)
                         cw.set("coincidents", set())
@@ -315,7 +336,7 @@ def consistency_reach(repo: Repo) -> RuleRun:
         bl.set("blocks", blocks)
         return bl
 
-    conflicts = [None, ("agree", 0, 1, 1), ("agree", 1, 2, 3), ("intra", 0, 0, 0), ("intra", 1, 2, 3), ("intra", 0, 1, 2), ("inter", 0, 0, 0), ("inter", 1, 2, 3), ("inter", 1, 0, 1)]
+    conflicts = [None, ("agree", 0, 1, 1), ("agree", 1, 2, 3), ("inter-set", 0, 2, 1), ("intra", 0, 0, 0), ("intra", 1, 2, 3), ("intra", 0, 1, 2), ("inter", 0, 0, 0), ("inter", 1, 2, 3), ("inter", 1, 0, 1)]
     for conflict in conflicts:
         for shared in (True, False):
             if conflict is not None and conflict[0] == "intra" and shared:
